@@ -211,7 +211,7 @@ def _run_case(spec):
 def check(rep, tier, seed, specs=None, n_override=None):
     quick = tier == 'quick'
     if specs is None:
-        n = n_override or (1600 if quick else 80000)
+        n = n_override or (1600 if quick else 40000)
         kinds = ['limits', 'limits', 'flags', 'flags', 'records', 'records-dense', 'files', 'switch', 'limits-dense']
         strata = ['small', 'multi', 'as', 'fusion_var', 'circ_var', 'sec', 'small', 'circ', 'fusion', 'units']
         specs = []
